@@ -1,1 +1,68 @@
-(* C04 -- theorems to be stated here. *)
+(* C04 -- CTR keystream uses the documented counter-block layout in all six flavours.
+   One statement generic in the flavour (counter chunk size cs in bytes -- 4, 8, 16 in the code, any
+   cs >= 1 here -- and endianness): for every block size that is a multiple of cs (iv = concat chs,
+   chs <> [], every chunk of cs bytes), every IV of real bytes, every cipher E, every width:
+   keystream block j from counter value i is E(layout(IV, i + j)); the layout replaces the counter
+   field by (field + i) mod 2^bits and passes every other byte through; distinct counter values
+   below 2^bits give distinct counter blocks; batching through the parallel path changes nothing. *)
+From BM Require Import Ints Ints_proofs Ctr Stream Stream_proofs Ctr_proofs Interp Interp_proofs.
+
+Theorem C04_layout : forall (F : flavor), 0 < f_cs F -> forall chs i,
+  chs <> [] -> all_len (f_cs F) chs -> bytes_ok (concat chs) ->
+  current_block F (mkcn i (cn_nonce (from_nonce F (concat chs)))) = layout F (concat chs) i.
+Proof. exact current_block_layout. Qed.
+Print Assumptions C04_layout.
+
+Theorem C04_keystream : forall (F : flavor), 0 < f_cs F -> forall (C : cipher) chs n,
+  chs <> [] -> all_len (f_cs F) chs -> bytes_ok (concat chs) -> forall i,
+  ctr_gen_n F C n (mkcn i (cn_nonce (from_nonce F (concat chs)))) =
+  (mkcn (if n =? 0 then i else wrap (f_bits F) (i + N.of_nat n)) (cn_nonce (from_nonce F (concat chs))),
+   map (fun j => c_E C (layout F (concat chs) (i + N.of_nat j))) (seq 0 n)).
+Proof. exact ctr_keystream. Qed.
+Print Assumptions C04_keystream.
+
+(* a fresh core starts at counter value 0 *)
+Theorem C04_init : forall (F : flavor) iv, ctr_init F iv = mkcn 0 (cn_nonce (from_nonce F iv)).
+Proof. reflexivity. Qed.
+Print Assumptions C04_init.
+
+(* every other IV byte is passed through unchanged; the wrapping counter never carries into the nonce *)
+Theorem C04_nonce_untouched : forall (F : flavor) iv i, 0 < f_cs F -> f_cs F <= length iv ->
+  length (layout F iv i) = length iv /\
+  (if f_be F then firstn (length iv - f_cs F) (layout F iv i) = firstn (length iv - f_cs F) iv
+   else skipn (f_cs F) (layout F iv i) = skipn (f_cs F) iv) /\
+  layout F iv (wrap (f_bits F) i) = layout F iv i.
+Proof. intros F iv i H0 H. split; [|split]; [now apply layout_length | now apply layout_nonce_untouched | apply layout_wrap]. Qed.
+Print Assumptions C04_nonce_untouched.
+
+Theorem C04_layout_injective : forall (F : flavor) iv i j, f_cs F <= length iv ->
+  (i < pow2 (f_bits F))%N -> (j < pow2 (f_bits F))%N -> layout F iv i = layout F iv j -> i = j.
+Proof. exact layout_inj. Qed.
+Print Assumptions C04_layout_injective.
+
+(* through the interpreter's dispatch: single, parallel and tail paths produce the same blocks,
+   and the data is xored with them *)
+Theorem C04_paths : forall (C : cipher) cs be n cn,
+  ks_blocks (kscore C (SCtr cs be)) n (CCtr cn) =
+  (let '(cn', bl) := ctr_gen_n (mkflavor cs be) C n cn in (CCtr cn', bl)).
+Proof. intros C cs be n cn. destruct (kscore_ks_blocks C) as (H & _). rewrite H. apply kscore_ctr_gen_n. Qed.
+Print Assumptions C04_paths.
+
+Theorem C04_apply_xors : forall (St : Type) (K : score St) st cs,
+  apply_ks_blocks K st cs = (fst (ks_blocks K (length cs) st), map2 xor_in2out cs (snd (ks_blocks K (length cs) st))).
+Proof. intros St K st cs. unfold apply_ks_blocks. destruct (ks_blocks K (length cs) st); reflexivity. Qed.
+Print Assumptions C04_apply_xors.
+
+(* non-vacuity: a 12-byte IV with a 32-bit big-endian counter at 2^32 - 1: block 1 wraps the field
+   to 0 and leaves the 8 nonce bytes alone *)
+Example C04_example :
+  let F := mkflavor 4 true in
+  let chs := [[1;2;3;4]; [5;6;7;8]; [255;255;255;255]]%N in
+  chs <> [] /\ all_len 4 chs /\ bytes_ok (concat chs) /\
+  layout F (concat chs) 1 = [1;2;3;4;5;6;7;8;0;0;0;0]%N /\
+  layout F (concat chs) 0 = concat chs.
+Proof. cbn zeta. repeat split; try discriminate.
+  - repeat constructor.
+  - repeat (constructor; [reflexivity|]). constructor.
+Qed.
+Print Assumptions C04_example.
